@@ -643,4 +643,13 @@ M("m126", "C10", "R10.7", RVI, "        self.gain = 0.0\n", "        self.gain =
 M("m127", "C09", "R9.6", PVI, "self.value_history = np.zeros((self.period + 1, self.problem.n_states))",
   "self.value_history = np.zeros((self.period + 1, self.problem.n_states), dtype=np.float32)",
   "history template float32: restored history loses precision")
-B("b41", RVI, "        self.gain = 0.0\n", "        self.gain = float(0)\n", "float(...) initialiser is still a float template")
+B("b41", ["C09", "C10", "C04"], RVI, "        self.gain = 0.0\n", "        self.gain = float(0)\n", "float(...) initialiser is still a float template")
+B("b42", ["C01", "C08"], VI, "        return jnp.max(delta) - jnp.min(delta)", "        return jnp.ptp(delta)", "span through jnp.ptp (peak-to-peak == max - min)")
+B("b43", ["C01", "C08"], VI, "        return jnp.max(jnp.abs(new_values - old_values))", "        return jnp.abs(jnp.subtract(new_values, old_values)).max()",
+  "max-diff with jnp.subtract and the method form of max")
+B("b44", ["C01", "C08"], VI, "        delta = new_values - old_values\n        return jnp.max(delta) - jnp.min(delta)", "        delta = new_values - old_values\n        hi = delta.max()\n        lo = delta.min()\n        return hi - lo",
+  "span via method-form reductions held in locals")
+B("b45", ["C05", "C03"], PI, "        new_values = new_values.reshape(-1)\n", "        new_values = new_values.ravel()\n", "ravel instead of reshape(-1)")
+B("b46", ["C02", "C03"], VI, "        return jnp.max(\n            jax.vmap(\n                self._calculate_updated_state_action_value,\n                in_axes=(None, 0, None, None, None),\n            )(state, actions, random_events, gamma, values)",
+  "        q_of_action = jax.vmap(\n            self._calculate_updated_state_action_value,\n            in_axes=(None, 0, None, None, None),\n        )\n        return jnp.max(\n            q_of_action(state, actions, random_events, gamma, values)",
+  "vmapped callable bound to a local before it is applied")
